@@ -852,11 +852,7 @@ func (x *ctx) mapNext(st *state, fr *frame, in *ssa.Next) val {
 	if vs == sRef {
 		x.noteAllocated(st, v)
 	}
-	if pt, ok := mt.Elem().Underlying().(*types.Pointer); ok && structName(pt.Elem()) == "call" {
-		// in-flight call maps are keyed by the key stored in the call (same well-formedness as the call table)
-		x.assumed["call maps: an entry stored under k is a call whose key is k (established where the maps are built)"] = true
-		st.define(implies(and(okT.s, not(eq(v, null))), eq(x.readLeafHeap(st, &loc{base: v}, "call.key", ks), k)))
-	}
+	x.instantiateUniv(st, k)
 	// mark visited (only meaningful when ok)
 	cur := x.ghostArr(st, "ghost_visited", x.hinfo["G:visited"])
 	n := x.freshName("G_visited")
